@@ -8,7 +8,7 @@ import gen_samples as gs  # noqa
 
 PROP = "C07"
 AREAS = []
-THEOREMS = ["reconstruct_total", "length_correct", "range_correct", "range_cases"]
+THEOREMS = ["reconstruct_total", "length_correct", "range_correct", "range_cases", "range_on_split"]
 RULE = ("cases: q <dir> <params> <exh> <recipe>: one real archive (created through the library exactly as ragc-cli does, "
         "multi-file or single-file PanSN mode) per case; k in 9..15, segment size 20..200, contigs of 1..2500 bases incl. "
         "shorter than k, = k, k+1; IUPAC codes, N runs, whole-contig reverse complements (segments stored reverse-"
